@@ -294,18 +294,25 @@ def enc(case):
 
 
 # ------------------------------------------------------------------ implementation + oracle
-def build_states(nodes, HM, sep, auto):
+def build_states(nodes, HM, sep, auto, probe=None):
+    """probe: an `after` callback put on every transition declared inside a state definition (it runs while the
+    naming scope of that state is active)"""
+    def tr(t, s, x):
+        d = dict(trigger=t, source=sep.join(s), dest=None if x is None else sep.join(x))
+        if probe is not None:
+            d['after'] = probe
+        return d
     out = []
     for nd in nodes:
         if nd['embed']:
-            em = HM(model=None, states=build_states(nd['embed']['states'], HM, sep, auto),
+            em = HM(model=None, states=build_states(nd['embed']['states'], HM, sep, auto, probe),
                     initial=nd['embed']['states'][0]['name'], auto_transitions=auto,
-                    transitions=[[t, sep.join(s), None if d is None else sep.join(d)] for t, s, d in nd['embed']['trans']])
+                    transitions=[tr(t, s, d) for t, s, d in nd['embed']['trans']])
             out.append({'name': nd['name'], 'children': em})
         elif nd['kids'] or nd['trans']:
-            d = {'name': nd['name'], 'children': build_states(nd['kids'], HM, sep, auto)}
+            d = {'name': nd['name'], 'children': build_states(nd['kids'], HM, sep, auto, probe)}
             if nd['trans']:
-                d['transitions'] = [[t, sep.join(s), None if x is None else sep.join(x)] for t, s, x in nd['trans']]
+                d['transitions'] = [tr(t, s, x) for t, s, x in nd['trans']]
             out.append(d)
         else:
             out.append(nd['name'])
@@ -345,7 +352,23 @@ def impl(case):
     forest = copy.deepcopy(case['forest'])
     rel = [[t, list(s), None if d is None else list(d), []] for t, s, d in case['root_trans']] + declared(forest)
     first_leaf = leaves(forest)[0]
-    machine = HM(model=None, states=build_states(forest, HM, sep, cfg['auto']), initial=sep.join(first_leaf),
+    inside = []        # answers of the machine's queries taken INSIDE callbacks of transitions declared in nested states
+    budget = [0]
+
+    def snapshot():
+        ps = local_paths(forest)
+        return ([sorted(set(machine.get_triggers(sep.join(p)))) for p in ps],
+                [sorted((t.source, str(t.dest)) for t in machine.get_transitions(e)) for e in EVENTS],
+                [sorted((t.source, str(t.dest)) for t in machine.get_transitions(source=sep.join(p))) for p in ps])
+
+    def probe(*a, **k):
+        if budget[0] > 0:
+            budget[0] -= 1
+            try:
+                inside.append(snapshot())
+            except Exception as e:   # noqa
+                inside.append(('raised', type(e).__name__))
+    machine = HM(model=None, states=build_states(forest, HM, sep, cfg['auto'], probe), initial=sep.join(first_leaf),
                  transitions=[[t, sep.join(s), None if d is None else sep.join(d)] for t, s, d in case['root_trans']],
                  auto_transitions=cfg['auto'])
     objs = c11.Objects()
@@ -368,6 +391,8 @@ def impl(case):
         return [r, after if isinstance(after, str) else sorted(map(str, after))]
 
     def check(step):
+        del inside[:]
+        budget[0] = 3
         got = walk(machine, sep)
         user = sorted((t[:3] for t in got if not t[0].startswith('to_')), key=repr)
         want = sorted(((t, tuple(s), None if d is None else tuple(d)) for t, s, d, _sc in rel), key=repr)
@@ -451,7 +476,26 @@ def impl(case):
                     elif e in alive and mr[0][1] != (tres[0] == [0, True]):
                         fail(step, 'H model %d: may_%s() -> %r but trigger -> %r' % (mid, e, mr[0], tres[0]))
 
-    check(0)
+    def check_scoped(step):
+        """S: get_triggers / get_transitions answer the same inside a callback of a transition declared inside a
+        state (a naming scope is active) as outside"""
+        check(step)
+        budget[0] = 0
+        if inside:
+            outside = snapshot()
+            for snap in inside:
+                if snap != outside:
+                    if isinstance(snap, tuple) and snap and snap[0] == 'raised':
+                        fail(step, 'S a query inside a nested callback raised %s' % snap[1])
+                    else:
+                        k = [i for i in range(3) if snap[i] != outside[i]][0]
+                        j = [i for i, (a, b) in enumerate(zip(snap[k], outside[k])) if a != b]
+                        fail(step, 'S %s answers %r inside a callback of a transition declared in a nested state, %r outside' % (
+                            ('get_triggers', 'get_transitions(event)', 'get_transitions(source)')[k],
+                            snap[k][j[0]] if j else snap[k], outside[k][j[0]] if j else outside[k]))
+                    break
+
+    check_scoped(0)
     for idx, op in enumerate(case['ops']):
         k = op[0]
         raised = None
@@ -477,7 +521,7 @@ def impl(case):
                 machine.remove_transition(op[1], **kw)
             elif k == 'states':
                 if op[1] == 'top':
-                    machine.add_states(build_states([op[2]], HM, sep, cfg['auto']))
+                    machine.add_states(build_states([op[2]], HM, sep, cfg['auto'], probe))
                 else:
                     machine.add_states(sep.join(op[2] + [op[3]]))
             elif k == 'set':
@@ -498,7 +542,7 @@ def impl(case):
             raised = None      # removing from an event that has no transition: delattr finds no helper
         if raised is not None:
             fail(idx + 1, 'operation %s raised %s' % (k, type(raised).__name__))
-        check(idx + 1)
+        check_scoped(idx + 1)
     return [1, [sx_str(f) for f in failures], trig_obs]
 
 
